@@ -1,6 +1,8 @@
 package worlds
 
 import (
+	"os"
+	"path/filepath"
 	"sync"
 
 	"github.com/jech/galene/diskwriter"
@@ -30,6 +32,15 @@ func resetGlobals(r *simrt.Run) {
 	group.DataDirectory = "/sim/data"
 	token.VerifReset("/sim/data/var/tokens.jsonl")
 	r.SetFS(simrt.NewVFS())
-	// the recorder writes real files: never into the working directory
-	diskwriter.Directory = recordingsDir()
+	// the recorder writes real files: never into the working directory.
+	// The directory is per process: empty it, or what an earlier run of the
+	// same process recorded is visible to this one (GET /recordings/g1/
+	// answered 200 or 404 depending on the process layout).
+	rd := recordingsDir()
+	if ents, err := os.ReadDir(rd); err == nil {
+		for _, e := range ents {
+			os.RemoveAll(filepath.Join(rd, e.Name()))
+		}
+	}
+	diskwriter.Directory = rd
 }
